@@ -33,8 +33,20 @@ def make_spec(case):
     if fam == "degenerate":
         n = int(rng.integers(1, 4))
         x0 = rng.uniform(-2, 2, n)
-        kind = str(rng.choice(["allfixed", "inconsistent", "allfixed+scale"]))
-        if kind.startswith("allfixed"):
+        kind = str(rng.choice(["allfixed", "inconsistent", "allfixed+scale",
+                               "nearfixed"], p=[0.3, 0.3, 0.2, 0.2]))
+        if kind == "nearfixed":
+            # one variable really fixed at a huge value, the others with a
+            # narrow but real range (width 1e-9..1e-2): NOT all fixed
+            n = int(rng.integers(2, 4))
+            x0 = rng.uniform(-2, 2, n)
+            lb = x0 - 10.0 ** rng.uniform(-9, -2, n) * rng.random(n)
+            ub = lb + 10.0 ** rng.uniform(-9, -2, n)
+            x0 = np.clip(x0, lb, ub)
+            i = int(rng.integers(n))
+            lb[i] = ub[i] = x0[i] = float(rng.choice([-1.0, 1.0])) * \
+                10.0 ** rng.uniform(3, 13)
+        elif kind.startswith("allfixed"):
             lb = x0 + rng.uniform(-1, 1, n)
             ub = lb.copy()
         else:
